@@ -6,7 +6,7 @@ import HmsProofs.Lemmas.ConcInvoke
 
 Property theorems only (lemmas: `HmsProofs/Lemmas/ConcInvoke.lean`, `ConcProtocol.lean`).
 The model is `Hms/Conc/Invoke.lean` (host layer) on top of `Hms/Conc/Protocol.lean` (the `Wait`
-protocol as it is after the fixes V18/V19/V30). Everything is stated for *all* value types,
+protocol as it is after the fixes V18/V19/H1). Everything is stated for *all* value types,
 globals types, programs (callee bodies are arbitrary functions) and invocation histories.
 -/
 namespace HmsProofs.C16
